@@ -32,7 +32,9 @@ COQ_MODEL_OBS = "c19_model"
 RULE = (
     "exhaustive sweep of a family of small topologies (2 composition components + 1 outsider, chains of 0-3 "
     "adapters over 10 adapter kinds, fan-out at every position, static flags, callback inputs/outputs, missing "
-    "sides, dangling adapters; sub-sampled in the quick tier) + random forests (up to 4 roots, depth <= 5, "
+    "sides, dangling adapters; plus a listing-order family: producer-first / consumer-first x fan-out at every "
+    "position x dead-end adapter sub-chains of length 1-3 incl. nested ones; both sub-sampled in the quick tier) "
+    "+ random forests (up to 4 roots, depth <= 5, "
     "fan-out <= 3); non-trivial = at least one adapter and (a defect or a fan-out); distinct by canonical case hash"
 )
 TRUSTED = [
@@ -672,6 +674,64 @@ def _sweep():
                         yield _chain_case(ik, ist, ok_, ost, chain, fan, io, oo)
 
 
+def _swap01(case):
+    """the same wiring with components 0 and 1 listed in the other order (consumer first)"""
+    import copy
+
+    c = copy.deepcopy(case)
+    c["comps"][0], c["comps"][1] = c["comps"][1], c["comps"][0]
+
+    def sw(e):
+        e = list(e)  # fresh list: the endpoints of several links may be one shared object
+        if e[0] in ("o", "i") and e[1] in (0, 1):
+            e[1] = 1 - e[1]
+        return e
+
+    c["links"] = [[sw(a), sw(b)] for a, b in c["links"]]
+    return c
+
+
+def _with_dead_tail(case, pos, tail):
+    """attach a chain of adapters that ends in nothing below node `pos` of the main chain
+    (0 = the output, k = the k-th adapter of the main chain)"""
+    import copy
+
+    c = copy.deepcopy(case)
+    src = c["links"][0][0] if pos == 0 else ["a", pos - 1]
+    for kind in tail:
+        c["adapters"].append(kind)
+        a = ["a", len(c["adapters"]) - 1]
+        c["links"].append([src, a])
+        src = a
+    return c
+
+
+_TAIL_KINDS = ["scale", "delay", "hnb", "linear"]
+
+
+def _dead_end_sweep():
+    """listing order x fan-out at every position of a chain of 1-2 adapters x dead-end sub-chains of
+    length 1-3 (also a second, nested dead end), for valid and invalid main chains (about 15k cases)"""
+    for n in (1, 2):
+        for chain in itertools.product(ADA_KINDS if n == 1 else ["scale", "linear", "hpull", "hnb"], repeat=n):
+            for ik, ok_ in (("plain", "push"), ("cb", "push"), ("plain", "cb")):
+                base = _chain_case(ik, False, ok_, False, chain, None, "comp", "comp")
+                for pos in range(n + 1):
+                    for tl in (1, 2, 3):
+                        for tail in itertools.product(_TAIL_KINDS, repeat=tl):
+                            if tl == 3 and tail[0] != "scale":
+                                continue
+                            c = _with_dead_tail(base, pos, tail)
+                            yield c
+                            yield _swap01(c)
+                            if tl == 2 and n == 1:
+                                # nested: a further dead end below the first adapter of the tail
+                                c2 = _with_dead_tail(c, 0, [])
+                                c2["adapters"].append("scale")
+                                c2["links"].append([["a", n], ["a", len(c2["adapters"]) - 1]])
+                                yield _swap01(c2)
+
+
 def _rand_case(rng, deep):
     ncomp = rng.choice([1, 2, 2, 3])
     comps = [{"ins": [], "outs": []} for _ in range(ncomp)]
@@ -693,6 +753,7 @@ def _rand_case(rng, deep):
                           ["scale", "hpull", "hpush", "next"], ["scale", "hboth", "hpull", "delay"]])
     maxd = rng.choice([2, 3, 5] if deep else [1, 2, 3])
     p_fan = rng.choice([0.0, 0.15, 0.35])
+    p_dead = rng.choice([0.0, 0.0, 0.1, 0.3])
 
     def grow(src, depth):
         nch = 1
@@ -701,6 +762,18 @@ def _rand_case(rng, deep):
         if src[0] == "a" and rng.random() < 0.04:
             nch = 0  # dead-end adapter
         for _ in range(nch):
+            if nch > 1 and rng.random() < p_dead:
+                # a branch that ends in nothing: 1-3 adapters, possibly forking once more
+                cur = src
+                for _k in range(rng.choice([1, 2, 2, 3])):
+                    adapters.append(rng.choice(["scale", "delay", "hnb", "topull"] if rng.random() < 0.8 else kinds_w))
+                    a = ["a", len(adapters) - 1]
+                    links.append([cur, a])
+                    if rng.random() < 0.2:
+                        adapters.append("scale")
+                        links.append([a, ["a", len(adapters) - 1]])
+                    cur = a
+                continue
             if depth < maxd and rng.random() < 0.6:
                 adapters.append(rng.choice(kinds_w))
                 a = ["a", len(adapters) - 1]
@@ -778,6 +851,15 @@ CORPUS = [
        [[["o", 0, 0], ["i", 1, 0]], [["o", 0, 0], ["a", 0]]]),
     _c([{"ins": [], "outs": [["push", False]]}, {"ins": [["plain", False]], "outs": []}], _X, ["scale", "hnb", "delay"],
        [[["o", 0, 0], ["a", 0]], [["a", 0], ["i", 1, 0]], [["a", 0], ["a", 1]], [["a", 1], ["a", 2]]]),
+    # seeded mutant C19_b: the consumer is listed before the producer, a pass-through adapter on its chain fans
+    # out into a dead-end chain of two adapters (gen.Out >> A >> cons.In; A >> D >> E; Composition([cons, gen]))
+    _c([{"ins": [["plain", False]], "outs": []}, {"ins": [], "outs": [["push", False]]}], _X, ["scale", "scale", "scale"],
+       [[["o", 1, 0], ["a", 0]], [["a", 0], ["i", 0, 0]], [["a", 0], ["a", 1]], [["a", 1], ["a", 2]]]),
+    # ... and with a nested dead end below D
+    _c([{"ins": [["plain", False]], "outs": []}, {"ins": [], "outs": [["push", False]]}], _X,
+       ["scale", "delay", "scale", "hnb", "scale"],
+       [[["o", 1, 0], ["a", 0]], [["a", 0], ["a", 1]], [["a", 1], ["a", 2]], [["a", 1], ["a", 3]], [["a", 3], ["a", 4]],
+        [["a", 0], ["i", 0, 0]]]),
     # a link between outsiders only is invisible to the composition
     _c([{"ins": [], "outs": [["push", False]]}], [{"ins": [["plain", False]], "outs": [["push", False]]}], ["scale"],
        [[["o", -1, 0], ["a", 0]], [["a", 0], ["i", -1, 0]]]),
@@ -792,9 +874,11 @@ def generate(rng, tier):
         big = [c for c in sweep if len(c["adapters"]) > 2]
         cases += small if len(small) <= 2500 else rng.sample(small, 2500)
         cases += rng.sample(big, 1500)
+        cases += rng.sample(list(_dead_end_sweep()), 1500)
         nrand = 2000
     else:
         cases += sweep
+        cases += list(_dead_end_sweep())
         nrand = 40000
     for i in range(nrand):
         # mostly valid: two thirds of the random cases get up to three re-draws when they contain a defect
@@ -829,6 +913,7 @@ def distribution(cases, obss):
 
 def extra_evidence(cases, obss):
     return {"exhaustive_family_size": sum(1 for _ in _sweep()),
+            "dead_end_family_size": sum(1 for _ in _dead_end_sweep()),
             "exhaustive_family_note": "thorough tier runs the whole family; the quick tier a seeded sample of it",
             "post_validation_connect_errors": "topologies that pass the validation but fail later in connect (static outputs "
                                               "behind time/delay adapters, dead-end time adapters) are compared on the "
